@@ -20,10 +20,12 @@ VARIABLES l,        \* next line of TraceLog
           pleafnc,  \* the previous snapshot's leaf open counts differed from the reference
           lastb,    \* ghost: who was granted a lock covering the byte at offset 2^64-1
                     \* (which the reference's table cannot express): [f, i, lo, t]
-          argh      \* ghost: [session][slot] -> hash of the complete arguments of the
+          argh,     \* ghost: [session][slot] -> hash of the complete arguments of the
                     \* request that was executed last on that slot
+          oldalt    \* this history may follow a server that gives one lock-owner a second
+                    \* piece of lock state on a file (the scripted histories of finding K1)
 
-tvars == <<vars, l, verdict, expect, lastk, nonconf, stats, pleafnc, lastb, argh>>
+tvars == <<vars, l, verdict, expect, lastk, nonconf, stats, pleafnc, lastb, argh, oldalt>>
 
 Line == TraceLog[l]
 IsEvent(e) == l <= Len(TraceLog) /\ Line.ev = e /\ l' = l + 1
@@ -42,7 +44,8 @@ ZeroStats == [replays |-> 0, false_retries |-> 0, misordered |-> 0, seq_errors |
               putfh_open_unlinked |-> 0, denied_replies |-> 0, io_held |-> 0,
               inflight_snapshots |-> 0, destroy_while_held |-> 0,
               expiry_with_open_state |-> 0, partial_expiry |-> 0, finals |-> 0,
-              last_byte_requests |-> 0, last_byte_held_by_other |-> 0, same_types_other_arguments |-> 0]
+              last_byte_requests |-> 0, last_byte_held_by_other |-> 0, same_types_other_arguments |-> 0,
+              lock_state_shared_by_open_owners |-> 0, second_lock_state_followed |-> 0]
 Inc(f) == [stats EXCEPT ![f] = @ + 1]
 IncIf(c, f) == IF c THEN Inc(f) ELSE stats
 
@@ -64,12 +67,12 @@ ResetTo(names) ==
 TInit ==
   /\ InitState(<<>>)
   /\ l = 1 /\ verdict = "ok" /\ expect = [x \in Ctxs |-> NoExpect] /\ lastk = "none" /\ nonconf = 0
-  /\ stats = ZeroStats /\ pleafnc = FALSE /\ lastb = {} /\ argh = NoArgs
+  /\ stats = ZeroStats /\ pleafnc = FALSE /\ lastb = {} /\ argh = NoArgs /\ oldalt = FALSE
 
 Skip(v) == /\ UNCHANGED vars /\ verdict' = v
 
-KeepT == UNCHANGED <<expect, lastk, nonconf, stats, pleafnc, lastb, argh>>
-KeepS == UNCHANGED <<expect, lastk, nonconf, pleafnc, lastb, argh>>   \* the action counts something in stats
+KeepT == UNCHANGED <<expect, lastk, nonconf, stats, pleafnc, lastb, argh, oldalt>>
+KeepS == UNCHANGED <<expect, lastk, nonconf, pleafnc, lastb, argh, oldalt>>   \* the action counts something in stats
 
 \* Lease expiry that the next enter() of the server performs.
 ExpiringNow == ExpiredAt(NowAt)
@@ -82,7 +85,7 @@ TReset ==
   /\ IsEvent("reset")
   /\ ResetTo(Line.names)
   /\ verdict' = "ok" /\ expect' = [x \in Ctxs |-> NoExpect] /\ lastk' = "none" /\ UNCHANGED <<nonconf, stats>> /\ pleafnc' = FALSE
-  /\ lastb' = {} /\ argh' = NoArgs
+  /\ lastb' = {} /\ argh' = NoArgs /\ oldalt' = Line.oldalt
 
 TClock ==
   /\ IsEvent("clock")
@@ -183,7 +186,7 @@ TCrses ==
                     ELSE IF retrans THEN "replay" ELSE "misordered"
         /\ stats' = ExpiryStats(IF retrans THEN Inc("crses_replays")
                                 ELSE IF outOfOrder THEN Inc("crses_out_of_order") ELSE stats)
-  /\ UNCHANGED <<expect, nonconf, pleafnc, lastb, argh>>
+  /\ UNCHANGED <<expect, nonconf, pleafnc, lastb, argh, oldalt>>
 
 TDsess ==
   /\ IsEvent("dsess")
@@ -214,7 +217,7 @@ TSeq ==
           /\ expect' = [expect EXCEPT ![Line.x] = [kind |-> reply'.kind, c |-> reply'.c, quiet |-> (ExpiringNow = {}),
                                                   sa |-> SameArgs]]
           /\ argh' = IF reply'.kind = "new" THEN [argh EXCEPT ![Line.sid][Line.slot] = Line.ah] ELSE argh
-          /\ UNCHANGED <<lastk, nonconf, pleafnc, lastb>>
+          /\ UNCHANGED <<lastk, nonconf, pleafnc, lastb, oldalt>>
           /\ stats' = ExpiryStats(IncIf(reply'.kind = "replay" /\ ~SameArgs, "same_types_other_arguments"))
           /\ verdict' =
                IF Line.st = "PANIC" THEN "ok"   \* the panic event follows
@@ -235,7 +238,7 @@ TEnd ==
        /\ SeqEnd(x, Line.rh)
        /\ verdict' = IF Line.sts # reply'.res.sts \/ Line.rops # reply'.res.ops THEN "NC:reply-summary" ELSE "ok"
        /\ expect' = [expect EXCEPT ![x] = NoExpect]
-       /\ lastk' = "new" /\ UNCHANGED <<nonconf, pleafnc, lastb, argh>>
+       /\ lastk' = "new" /\ UNCHANGED <<nonconf, pleafnc, lastb, argh, oldalt>>
        /\ stats' = ExpiryStats(stats)
      ELSE
        /\ UNCHANGED vars
@@ -243,7 +246,7 @@ TEnd ==
        \* a request that was not executed but made the server expire leases
        \* is not a witness for "no side effects"
        /\ lastk' = IF expect[x].quiet THEN expect[x].kind ELSE "expiry"
-       /\ UNCHANGED <<nonconf, pleafnc, lastb, argh>>
+       /\ UNCHANGED <<nonconf, pleafnc, lastb, argh, oldalt>>
        /\ stats' = LET k == expect[x].kind IN
                    IF k \in {"replay", "false", "misordered", "error"} /\ ~expect[x].quiet THEN Inc("noeffect_with_expiry")
                    ELSE IF k = "replay" THEN Inc("replays")
@@ -276,7 +279,7 @@ TDupStart ==
      ELSE /\ SeqStart(Line.x, Line.sid, Line.slot, Line.sq, Line.cache, Line.shape)
           /\ verdict' = IF reply'.kind = "wait" THEN "ok" ELSE "NC:harness-duplicate-not-in-flight"
   /\ expect' = IF Line.x \in Ctxs THEN [expect EXCEPT ![Line.x] = [NoExpect EXCEPT !.kind = "wait", !.sa = SameArgs]] ELSE expect
-  /\ UNCHANGED <<lastk, nonconf, stats, pleafnc, lastb, argh>>
+  /\ UNCHANGED <<lastk, nonconf, stats, pleafnc, lastb, argh, oldalt>>
 
 TDupEnd ==
   /\ IsEvent("dupend")
@@ -383,10 +386,26 @@ LStats == LET a == IncIf(Line.st = "DENIED", "denied_replies")
 \* the lock state that a successful LOCK / LOCKU acted on
 LofOfReply(x) == CHOOSE m \in lofs' : m.i = cx[x].i /\ m.o = reply'.rsid.o
 
+\* LOCK with a new lock-owner that already has lock state on the file through
+\* another open-owner of the client: that lock state is re-used.  A server
+\* that answers with a new lock state ID instead is followed in the histories
+\* that are marked for it (oldalt), elsewhere the reference cannot follow (NC).
+SharedLockState ==
+  LET ro == ResolveOpen(Line.x, SidOf(Line.osid), FALSE) IN
+  IF ~Line.newo \/ ro.st # "OK" THEN {}
+  ELSE {m \in LofsOfOwner(ro.r.i, ro.r.f, Line.lo) : m.oo # ro.r.oo}
+FollowSecond ==
+  /\ oldalt /\ Line.st = "OK" /\ SharedLockState # {}
+  /\ ~\E m \in SharedLockState : m.o = Line.rsid.o
+
 TLock ==
-  IsEvent("LOCK") /\ UNCHANGED <<expect, lastk, nonconf, pleafnc, argh>> /\ stats' = LStats /\
+  IsEvent("LOCK") /\ UNCHANGED <<expect, lastk, nonconf, pleafnc, argh, oldalt>> /\
+    stats' = (LET a == LStats
+                  b == IF CanOp /\ SharedLockState # {} THEN [a EXCEPT !.lock_state_shared_by_open_owners = @ + 1] ELSE a
+              IN IF CanOp /\ FollowSecond THEN [b EXCEPT !.second_lock_state_followed = @ + 1] ELSE b) /\
     IF CanOp THEN
-      /\ Lock(Line.x, Line.lt, MRk, Line.s, Line.e, Line.newo, SidOf(Line.osid), Line.lo, SidOf(Line.lsid), Line.rsid.o)
+      /\ LockR(Line.x, Line.lt, MRk, Line.s, Line.e, Line.newo, SidOf(Line.osid), Line.lo, SidOf(Line.lsid), Line.rsid.o,
+               ~FollowSecond)
       /\ LET granted == reply'.st = "OK" /\ Line.st = "OK"
              me == LofOfReply(Line.x)
              t == LockT(Line.lt)
@@ -404,7 +423,7 @@ TLockT == IsEvent("LOCKT") /\ KeepS /\ stats' = LStats /\
             IF CanOp THEN LockTest(Line.x, Line.lt, MRk, Line.s, Line.e, Line.lo) /\ verdict' = Denied("LOCKT") ELSE NoStep
 
 TLockU ==
-  IsEvent("LOCKU") /\ UNCHANGED <<expect, lastk, nonconf, pleafnc, argh>> /\ stats' = LStats /\
+  IsEvent("LOCKU") /\ UNCHANGED <<expect, lastk, nonconf, pleafnc, argh, oldalt>> /\ stats' = LStats /\
     IF CanOp THEN /\ LockU(Line.x, SidOf(Line.sid), MRk, Line.s, Line.e)
                   /\ lastb' = IF reply'.st = "OK" /\ Line.st = "OK" /\ CoversLast
                               THEN LET me == LofOfReply(Line.x) IN
@@ -556,7 +575,7 @@ LeafNC == "NC:leaf-open-count-differs-from-reference"
 
 TSnap ==
   /\ IsEvent("snap")
-  /\ UNCHANGED <<vars, expect, lastk, lastb, argh>>
+  /\ UNCHANGED <<vars, expect, lastk, lastb, argh, oldalt>>
   /\ nonconf' = IF LeafVerdict = LeafNC THEN nonconf + 1 ELSE nonconf
   /\ pleafnc' = (LeafVerdict = LeafNC)
   /\ stats' = LET a == IF lastk \in NoEffectKinds /\ Line.why = "c" THEN Inc("noeffect_snapshots") ELSE stats
